@@ -293,6 +293,14 @@ func (r *aRun) evaluate(out *Outcome) {
 		out.violate(prop, "stuck", "driver", "driver stuck with nothing runnable (shutdown never returned?): %s", out.Res.StuckInfo)
 		return
 	}
+	if r.stopHung {
+		out.violate(prop, "stop-never-returned", "stop-never-returned", "the stop requested at %v had not returned after %v (bound %v)", r.stopSince-1, 3*c18Bound(), c18Bound())
+		return
+	}
+	if out.Res.CapHit != "" && r.stopSince > 0 && out.Res.SimTime-(r.stopSince-1) > c18Bound() {
+		out.violate(prop, "stop-never-returned", "stop-never-returned", "the stop requested at %v had not returned when the run was cut at %v (bound %v)", r.stopSince-1, out.Res.SimTime, c18Bound())
+		return
+	}
 	if out.Res.CapHit != "" {
 		// the run was cut before its final stop: its history is incomplete, so it is counted (cap_hits in the evidence) and not judged
 		out.probe("run_cut_at_"+out.Res.CapHit+"_cap", 1)
@@ -1075,9 +1083,14 @@ func (r *aRun) oracleC17(v *aView) {
 // ---------------------------------------------------------------------------------------------------------------
 // C18 bounded shutdown
 
+// c18Bound() is the longest a stop may take: the listener's forced stop, then the buffer's shutdown timeout plus the hand-off timeouts around it.
+func c18Bound() time.Duration {
+	return 2*defs.IntermediateChannelTimeout + (defs.BufferShutDownTimeout + 2*defs.IntermediateChannelTimeout) + time.Second
+}
+
 func (r *aRun) oracleC18(v *aView) {
 	out := r.out
-	bound := 2*defs.IntermediateChannelTimeout + (defs.BufferShutDownTimeout + 2*defs.IntermediateChannelTimeout) + time.Second
+	bound := c18Bound()
 	for _, st := range r.stops {
 		out.Obligations++
 		if st.Took > bound {
